@@ -209,8 +209,18 @@ def atom_of(cond, outcome):
     return ("val", norm(c), outcome)
 
 
+def is_dropflag_cond(cond):
+    """MIR drop flags: bool locals assigned only constants; branches on them carry no program condition."""
+    c = strip(cond)
+    if c[0] == "var":
+        c = c[2]
+    if c[0] == "phi":
+        return all(x[0] == "const" and isinstance(x[1], bool) for x in c[1])
+    return c[0] == "const" and isinstance(c[1], bool)
+
+
 def atoms_at(body, bb):
-    return [(g[0], atom_of(g[1], g[2])) for g in body.guards(bb)]
+    return [(g[0], atom_of(g[1], g[2])) for g in body.guards(bb) if not is_dropflag_cond(g[1])]
 
 
 def show_atom(a):
